@@ -82,7 +82,7 @@ CHECKS = {
     "C04": dict(
         level="other",
         text="Solver-decided, path-exhaustive within stated bounds (Pattern B): inline.create_inline(...).get_changes (InlineMethod/InlineVariable/InlineParameter, _DefinitionGenerator, _InlineFunctionCallsForModuleHandle, functionutils.ArgumentMapping) over corpus K04 (definition with 1-3 call sites in 1-2 modules, positional/keyword/default mixes, methods, variables, parameters) with symbolic identifier spellings: z3 enumerates every capture between the inlined body's parameters/locals and the names at the call sites; the query occurrence and the remove/only_current mode are solver-split. Each result is a refusal or must parse, keep every module importable and print the same output.",
-        note="Trusted: z3, CPython (running the programs), rsx. Eleven hazard classes in which rope's textual inlining is wrong are known findings (one more was a crash and is fixed in /repo), identified by root-cause tags computed from the failing program; a failure is suppressed only if all its tags are known hazards. Bound: corpus K04, one-letter identifiers.",
+        note="Trusted: z3, CPython (running the programs), rsx. Fourteen hazard classes in which rope's textual inlining is wrong are known findings (one more was a crash and is fixed in /repo); each is a root-cause tag computed from the failing program together with the way the failure shows (tag@manifestation), and only combinations triaged on the unchanged tree are listed, identified by root-cause tags computed from the failing program; a failure is suppressed only if all its tags are known hazards. Bound: corpus K04, one-letter identifiers.",
         design="§5 C04",
     ),
     "C07": dict(
@@ -94,7 +94,7 @@ CHECKS = {
     "C05": dict(
         level="other",
         text="Solver-decided, path-exhaustive within stated bounds (Pattern B): move.create_move (MoveGlobal for functions, classes and variables; MoveModule into a package incl. relative imports; MoveMethod), module rename and ModuleToPackage over layouts K05 whose clients reach the moved object through plain, dotted, from, aliased and relative imports; in-module identifier spellings are symbolic, so the moved code's free names colliding with destination names and aliases colliding with locals are solver-explored. Each result is a refusal or must parse, keep every module importable and print the same output through every client import style.",
-        note="Trusted: z3, CPython, rsx. Module/package/file names are concrete. Seven hazard classes of MoveGlobal are known findings identified by root-cause tags; a failure is suppressed only if all its tags are known.",
+        note="Trusted: z3, CPython, rsx. Module/package/file names are concrete. Nine hazard classes of MoveGlobal are known findings (tag@manifestation); one more (stale relative from-import in clients) was fixed in /repo identified by root-cause tags; a failure is suppressed only if all its tags are known.",
         design="§5 C05",
     ),
     "C17": dict(
